@@ -9,6 +9,30 @@ NOTES = ("Every check is decided by TLA+ specifications under spec/ checked with
 NOT_APPLICABLE = {}
 
 CHECKS = {
+    "C05": {
+        "text": "OnceEventSync.tla transcribes core/sync.rs (set, sender drop, poll arms, is_set, into_value, final_poll) one action per atomic "
+                "operation / fence / cell access, memory through an explicit RC11 release/acquire model (spec/lib/RC11.tla) whose "
+                "per-site orderings are MEASURED from the instrumented code on every run; TLC checks the API judge OnceEventAbs as a "
+                "monitor, no unreachable arm, no uninitialised cell access, spin-loop exit (liveness, SC) and race freedom for all "
+                "interleavings and all RC11 outcomes of send|drop x (poll^k, is_ready, into_value, drop). Every explorer behaviour "
+                "(edge cover) is replayed as a schedule on the real event through shim atomics and a deterministic scheduler; every "
+                "recorded run is validated by TLC against the explorer (conformance, drift measured) and against the API judge.",
+        "note": "Bounds: MaxPolls 2 (thorough 3), one is_ready; RC11 without load-buffering/OOTA; x86 executions are SC, weak outcomes only in "
+                "the model. Trusted: TLC, the shim atomics (cfg folo_verif) forwarding to std atomics, the scheduler's total order.",
+        "technique": "TLA+ explorer over an explicit RC11 memory model with orderings measured from the code, checked by TLC; schedule replay "
+                     "of TLC behaviours on the real code; trace validation (conformance + API judge) by TLC",
+    },
+    "C06": {
+        "text": "Same explorer: release of the storage is a non-atomic write to every cell incl. a liveness cell `blk` that every access reads, so "
+                "NoRace under RC11 (measured orderings) is exactly 'every access by the other endpoint happens-before the release'; plus "
+                "TraceRC11: every run recorded from the real code on all six storage strategies (boxed, embedded, pooled, raw-pooled, lake, "
+                "raw-lake) and multi-task rental traffic with immediate re-rental is replayed by TLC through RC11 alone (happens-before "
+                "race / use-after-release detection with the orderings actually passed), with exactly-once release, no double rent, no "
+                "leak and pool/lake length 0 at quiescence; API judge checks release exactly once and not early.",
+        "note": "release -> next allocation of the same storage is ordered by the allocator / pool lock (trusted base). Debug-profile build "
+                "(backtrace mutex inside the event modelled as a lock). Bounds as C05; traffic 2..8 tasks.",
+        "technique": "TLA+ RC11 model checked by TLC (explorer NoRace) + TLC trace validation of recorded runs through RC11 (vector-clock race detection)",
+    },
     "C09": {
         "text": "TLC explores the five selection loops of take()/take_all() (every random pick nondeterministic) over every candidate "
                 "map of 3 regions x 0..2 (thorough 0..3) candidates, every policy, n and quota, and checks each terminal state against "
